@@ -126,7 +126,9 @@ class OptimizationGroup:
         result_dataset["weighted_residual"] = result_dataset["residual"]
         result_dataset["residual"] = result_dataset["residual"] / weight
         if "weight" not in result_dataset:
-            if weight.shape != result_dataset.data.shape:
+            model_dimension = self._data_provider.get_model_dimension(dataset_label)
+            global_dimension = self._data_provider.get_global_dimension(dataset_label)
+            if result_dataset.data.dims != (model_dimension, global_dimension):
                 weight = weight.T
             result_dataset["weight"] = (result_dataset.data.dims, weight)
 
